@@ -49,7 +49,7 @@ def run(m, tests=False, tier="quick", runs=None):
             cmd = [PY, os.path.join(HERE, "check.py"), prop, "--tier", tier]
             if runs:
                 cmd += ["--runs", str(runs)]
-            p = subprocess.run(cmd, env=env, capture_output=True, text=True)
+            p = subprocess.run(["timeout", "-s", "KILL", "900"] + cmd, env=env, capture_output=True, text=True)
             viol = [l for l in p.stdout.splitlines() if l.startswith("VIOLATION")]
             orac = [l.strip() for l in p.stdout.splitlines() if l.strip().startswith("oracle=")]
             out[prop] = {"exit": p.returncode, "violations": len(viol), "oracles": orac[:4]}
